@@ -10,7 +10,7 @@ import (
 
 func init() {
 	register(&Property{
-		ID: "C15",
+		ID:          "C15",
 		Explanation: "May-not-reach analysis over /repo's type-checked source: from every exported method of *fs.STFS and *fs.File, every statically resolved call path to a tape- or index-changing sink (BackendConfig.GetWriter, the row-changing methods of config.MetadataPersister computed from pkg/persisters, any use of the writeOps field, getFileBuffer) must cross a control-flow edge on which the instance is known not to be read-only (false edge of a `readOnly` test for STFS; true edge of `flags.Write` or of `writeBuf != nil` for File), decided by must-dataflow over go/cfg per function with summaries for callees and local closures. Flag-integrity rules show those File-side facts really imply a writable filesystem: flags.Write/Append/Truncate are set only under !readOnly in OpenFile, readOnly is assigned only at construction, writeBuf becomes non-nil only in enterWriteMode whose callers are gated by flags.Write. A guard test's read-only branch must return os.ErrPermission.",
 		NotDecided:  "Equality of read results with a writable twin; mutations performed by user-supplied callbacks (onHeader, getSrc); the in-memory root-path cache (not tape/index state).",
 		Assumptions: []string{"calls through function values other than BackendConfig fields and local closures do not reach sinks (onHeader/getSrc callbacks are user code)", "reflection/unsafe are not used in pkg/fs (asserted)"},
@@ -19,13 +19,13 @@ func init() {
 }
 
 type roGuards struct {
-	c        *Ctx
-	s        *sinkInfo
-	readOnly *types.Var
-	flagsW   *types.Var
-	writeBuf *types.Var
-	safe     map[*FuncInfo]int // 0 unknown 1 in-progress 2 unsafe 3 safe
-	why      map[*FuncInfo]string
+	c          *Ctx
+	s          *sinkInfo
+	readOnly   *types.Var
+	flagsW     *types.Var
+	writeBuf   *types.Var
+	safe       map[*FuncInfo]int // 0 unknown 1 in-progress 2 unsafe 3 safe
+	why        map[*FuncInfo]string
 	exemptCall func(cs *CallSite) bool
 }
 
